@@ -19,6 +19,10 @@ def configs(tier):
     ]
     if tier == "quick":
         return base + [
+            # a send-buffer size that is not a multiple of the alignment: sender and receiver must agree on the first
+            # packet's capacity to the byte
+            {"name": "sb5001", "sb": 5001, "lens": lambda m, f: fragcheck.boundary_lens(m, f, ks=(1, 2), radius=16), "atts": [0],
+             "maxfault": 0},
             {"name": "sys", "sb": None, "atts": [0], "maxfault": 0,
              "lens": lambda m, f: fragcheck.boundary_lens(m, f, ks=(1, 2), radius=16)},
         ]
